@@ -26,9 +26,93 @@ def apply_edit(repo_root, rel, old, new, base_overrides=None):
     return src.replace(old, new)
 
 
-def sensitivity(mod, prop, root, tier, seed):
+_W = {}
+
+
+def _viol_keys(ctx):
+    return {(o.rule, o.where, o.construct) for o in ctx.obs if o.status == 'violated'}
+
+
+def _eval_variant(task):
+    """One in-memory variant (runs in a forked worker; reads the globals prepared by the parent)."""
+    kind, name, overrides, rules = task
+    mod, prop, root, tier, seed, base = _W['mod'], _W['prop'], _W['root'], _W['tier'], _W['seed'], _W['base']
+    try:
+        ctx = evaluate(mod, prop, front.Repo(root, overrides), tier, seed)
+        if kind == 'equivalent':
+            new_v = {k[:2] for k in _viol_keys(ctx)} - {k[:2] for k in base}
+            return kind, name, 'silent' if not new_v else 'noisy', sorted(k[0] for k in new_v)
+        new_v = _viol_keys(ctx) - base
+        hit = any(r == k[0] or k[0].startswith(r) for k in new_v for r in rules) if rules else bool(new_v)
+        return kind, name, 'detected' if hit else 'missed', sorted({k[0] for k in new_v})
+    except front.AnchorMissing:
+        # reported as ANALYSIS-ERROR by the check, never a silent pass: fine for a breaking variant, noise for an equivalent one
+        return kind, name, 'detected' if kind != 'equivalent' else 'noisy', ['ANALYSIS-ERROR (anchor missing)']
+    except Exception as e:      # a crash of the analysis on a variant is a checker defect, recorded as such
+        return kind, name, 'missed' if kind != 'equivalent' else 'noisy', ['CRASH %s: %s' % (type(e).__name__, e)]
+
+
+def _run_tasks(tasks, jobs):
+    if jobs <= 1 or len(tasks) <= 1:
+        return [_eval_variant(t) for t in tasks]
+    import multiprocessing
+    try:
+        with multiprocessing.get_context('fork').Pool(min(jobs, len(tasks))) as pool:
+            return pool.map(_eval_variant, tasks, chunksize=1)
+    except Exception:
+        return [_eval_variant(t) for t in tasks]
+
+
+def apply_patch(repo_root, patch_text):
+    """Applies a `git diff` to in-memory copies of the files it touches. Returns {rel: new source}, or None when a hunk
+    does not apply to the current source (context or removed lines differ)."""
+    import re
+    files, cur = {}, None
+    for line in patch_text.splitlines():
+        if line.startswith('+++ '):
+            cur = line[4:].strip()
+            cur = cur[2:] if cur.startswith('b/') else cur
+            files[cur] = []
+        elif line.startswith('@@') and cur is not None:
+            m = re.match(r'@@ -(\d+)(?:,(\d+))? \+(\d+)(?:,(\d+))? @@', line)
+            if not m:
+                return None
+            files[cur].append([int(m.group(1)), []])
+        elif cur is not None and files[cur] and line[:1] in (' ', '+', '-') and not line.startswith('--- '):
+            files[cur][-1][1].append(line)
+        elif cur is not None and files[cur] and line == '':
+            files[cur][-1][1].append(' ')
+    out = {}
+    for rel, hunks in files.items():
+        p = front.Path(repo_root) / rel
+        if not p.exists() or rel == '/dev/null':
+            return None
+        lines = p.read_text().split('\n')
+        shift = 0
+        for start, body in hunks:
+            oldl = [l[1:] for l in body if l[:1] in (' ', '-')]
+            newl = [l[1:] for l in body if l[:1] in (' ', '+')]
+            while oldl and newl and oldl[-1] == '' and newl[-1] == '' and body[-1] == ' ':
+                oldl.pop(); newl.pop(); body = body[:-1]
+            pos = None
+            for delta in sorted(range(-40, 41), key=abs):
+                i0 = start - 1 + shift + delta
+                if i0 >= 0 and lines[i0:i0 + len(oldl)] == oldl:
+                    pos = i0
+                    break
+            if pos is None:
+                return None
+            lines[pos:pos + len(oldl)] = newl
+            shift += len(newl) - len(oldl)
+        out[rel] = '\n'.join(lines)
+    return out or None
+
+
+def sensitivity(mod, prop, root, tier, seed, jobs=None):
     """Checker self-test on in-memory variants of the CURRENT tree (never changes the exit code):
-    breaking variants must raise the named rule, equivalent variants must raise nothing new."""
+    breaking variants must raise the named rule, equivalent variants must raise nothing new; in the thorough tier the
+    stored seeded patches that target (or are reported by) this property are re-applied in memory as well."""
+    import os
     try:
         st = importlib.import_module('selftest.%s' % prop)
     except ImportError:
@@ -42,46 +126,58 @@ def sensitivity(mod, prop, root, tier, seed):
         breaking, equiv = breaking[:3], equiv[:2]
     res = {'breaking_total': 0, 'breaking_detected': 0, 'breaking_inapplicable': 0, 'missed': [],
            'equivalent_total': 0, 'equivalent_silent': 0, 'equivalent_inapplicable': 0, 'noisy': []}
-    base = None
-
-    def viol_keys(ctx):
-        return {(o.rule, o.where, o.construct) for o in ctx.obs if o.status == 'violated'}
+    tasks = []
     for name, rel, old, new, rules in breaking:
         src = apply_edit(root, rel, old, new)
         if src is None:
             res['breaking_inapplicable'] += 1
-            continue
-        res['breaking_total'] += 1
-        try:
-            if base is None:
-                base = viol_keys(evaluate(mod, prop, front.Repo(root), tier, seed))
-            ctx = evaluate(mod, prop, front.Repo(root, {rel: src}), tier, seed)
-            new_v = viol_keys(ctx) - base
-            hit = any(r == k[0] or k[0].startswith(r) for k in new_v for r in rules) if rules else bool(new_v)
-        except front.AnchorMissing:
-            hit = True   # reported as ANALYSIS-ERROR, never a silent pass
-        if hit:
-            res['breaking_detected'] += 1
         else:
-            res['missed'].append(name)
+            tasks.append(('breaking', name, {rel: src}, list(rules)))
     for name, rel, old, new in equiv:
         src = apply_edit(root, rel, old, new)
         if src is None:
             res['equivalent_inapplicable'] += 1
-            continue
-        res['equivalent_total'] += 1
-        try:
-            if base is None:
-                base = viol_keys(evaluate(mod, prop, front.Repo(root), tier, seed))
-            ctx = evaluate(mod, prop, front.Repo(root, {rel: src}), tier, seed)
-            new_v = {k[:2] for k in viol_keys(ctx)} - {k[:2] for k in base}
-            ok = not new_v
-        except front.AnchorMissing:
-            ok = False
-        if ok:
-            res['equivalent_silent'] += 1
         else:
-            res['noisy'].append(name)
+            tasks.append(('equivalent', name, {rel: src}, []))
+    if tier == 'thorough':
+        res.update({'seeded_total': 0, 'seeded_reported': 0, 'seeded_inapplicable': 0, 'seeded_missed': []})
+        here = front.Path(__file__).resolve().parent.parent
+        for d in sorted((here / 'seeded').glob('*')):
+            try:
+                meta = json.loads((d / 'meta.json').read_text())
+                patch = (d / 'patch.diff').read_text()
+            except Exception:
+                continue
+            if meta.get('breaks_property') != prop and prop not in (meta.get('also_breaks') or []):
+                continue
+            ov = apply_patch(root, patch)
+            if ov is None:
+                res['seeded_inapplicable'] += 1
+            else:
+                tasks.append(('seeded', d.name, ov, []))
+    if not tasks:
+        return res
+    _W.update(mod=mod, prop=prop, root=root, tier=tier, seed=seed, base=_viol_keys(evaluate(mod, prop, front.Repo(root), tier, seed)))
+    jobs = jobs or int(os.environ.get('VERIF_JOBS', '0') or 0) or min(16, os.cpu_count() or 1)
+    for kind, name, status, fired in _run_tasks(tasks, jobs):
+        if kind == 'breaking':
+            res['breaking_total'] += 1
+            if status == 'detected':
+                res['breaking_detected'] += 1
+            else:
+                res['missed'].append(name)
+        elif kind == 'equivalent':
+            res['equivalent_total'] += 1
+            if status == 'silent':
+                res['equivalent_silent'] += 1
+            else:
+                res['noisy'].append('%s %s' % (name, fired))
+        else:
+            res['seeded_total'] += 1
+            if status == 'detected':
+                res['seeded_reported'] += 1
+            else:
+                res['seeded_missed'].append(name)
     return res
 
 
@@ -116,4 +212,6 @@ def run_property(prop, tier, seed, root, replay=None):
                 ctx.note('sensitivity: breaking variants not detected: %s' % ', '.join(s['missed']))
             if s['noisy']:
                 ctx.note('sensitivity: equivalent variants that raised a report: %s' % ', '.join(s['noisy']))
+            if s.get('seeded_missed'):
+                ctx.note('sensitivity: stored seeded changes no longer reported: %s' % ', '.join(s['seeded_missed']))
     return report.finish(ctx, mod.FLOOR, mod.EXPLANATION, mod.TRUSTED, mod.ASSUMPTIONS, extra=extra)
